@@ -63,6 +63,17 @@ PROPS = {
             "C08_example_missing_argument": [],
             "C08_example_call_main_not_found": [],
             "C08_example_call_static": [],
+            "C08_program_call_layout": [],
+            "C08_call_pair_in_program": [],
+            "C08_call_card_executes_designated_body": [],
+            "C08_function_body_starts_without_locals": [],
+            "C08_card_keeps_scopes": [],
+            "C08_closure_body_starts_without_locals": [],
+            "C08_param_binding_compiled": [],
+            "C08_example_nested_call_pairs": [],
+            "C08_example_nested_param_hyps": [],
+            "C08_example_nested_run": [],
+            "C08_example_card_keeps_scopes": [],
         },
         n_quick=320, n_thorough=3000,
         gates=["obs.ran", "obs.err.InvalidJump", "obs.err.SuperLimitReached", "obs.err.DuplicateModule", "obs.err.NoMain",
@@ -115,11 +126,16 @@ PROPS = {
             "C08_param_binding (declared parameter m = local n-1-m = the (m+1)-th supplied value from the end), "
             "C08_call_executes_designated_body (an adjacent FunctionPointer; CallFunction pair of a compiled module continues at the "
             "first byte of the code of the function spec_resolve designates; non-main targets, label_keys_distinct_module)",
-            "not proved of the run-time half: that the FunctionPointer; CallFunction pair a Call card appends (C08_call_card_emits_pair) "
-            "is still adjacent in the returned program (later emission only prepends and patches jump operands, but this is proved "
-            "only for the call skeleton: C08_call_resolves); that the innermost locals list is empty where a "
-            "function body starts (hypothesis of C08_param_binding's compiler side); that the callee's body keeps the caller's part of "
-            "the stack intact up to its Return (frame discipline of compiled code, the same gap as C18_reentry_balanced_partial)",
+            "the pair in the returned program: C08_program_call_layout / C08_call_pair_in_program (the FunctionPointer; CallFunction "
+            "pair of every Call card, at any nesting, of every function of the tree is adjacent in the returned instruction list and "
+            "carries the handle / arity the specification designates: the code buffer only grows at the end, modulo the operands of "
+            "jumps), C08_call_card_executes_designated_body (C08_call_executes_designated_body with its hypothesis discharged for Call "
+            "cards); locals at the start of a body: C08_function_body_starts_without_locals (cs_locals = [[]] where each function's "
+            "parameters are declared, in the run of compile_ir), C08_card_keeps_scopes, C08_closure_body_starts_without_locals, "
+            "C08_param_binding_compiled (C08_param_binding without the hypotheses on the locals)",
+            "not proved of the run-time half: that the callee's body keeps the caller's part of "
+            "the stack intact up to its Return (frame discipline of compiled code, the same gap as C18_reentry_balanced_partial); a "
+            "callee value that reaches CallFunction through other instructions than a Function card (DynamicCall of an expression)",
             "a call with fewer arguments than parameters is not an error unless the whole value stack is shorter than the arity: the "
             "callee's frame then reaches into the caller's slots (C08_example_short_call: the callee reads and the Return destroys the "
             "caller's local); the reference semantics (C01) leaves such calls unspecified; generated C08 cases always pass exactly "
